@@ -64,7 +64,8 @@ func (f *cfsm) Apply(l *raft.Log) interface{} {
 func (f *cfsm) Snapshot() (raft.FSMSnapshot, error) {
 	f.mu.Lock()
 	defer f.mu.Unlock()
-	return &slowSnap{data: encodeState(f.state), d: f.persist, noClose: len(f.state)%2 == 0}, nil
+	// (one snapshot in seven fails half-way through Persist, leaving the sink to raft, which cancels it)
+	return &slowSnap{data: encodeState(f.state), d: f.persist, noClose: len(f.state)%2 == 0, failHalf: len(f.state)%7 == 3}, nil
 }
 func (f *cfsm) Restore(rc io.ReadCloser) error {
 	b, err := io.ReadAll(rc)
@@ -96,13 +97,18 @@ func (f *cbfsm) StoreConfiguration(index uint64, configuration raft.Configuratio
 
 // slowSnap: Persist takes a while, so that InstallSnapshot / restore can fall into a running snapshot
 type slowSnap struct {
-	data    []byte
-	d       time.Duration
-	noClose bool // leave the final Close to raft (both styles exist among FSMs)
+	data     []byte
+	d        time.Duration
+	noClose  bool // leave the final Close to raft (both styles exist among FSMs)
+	failHalf bool
 }
 
 func (s *slowSnap) Persist(sink raft.SnapshotSink) error {
 	time.Sleep(s.d)
+	if s.failHalf {
+		_, _ = sink.Write(s.data[:len(s.data)/2])
+		return errInjected
+	}
 	if _, err := sink.Write(s.data); err != nil {
 		_ = sink.Cancel()
 		return err
@@ -2344,8 +2350,10 @@ func runRestoreCase(rng *rand.Rand, out *bufio.Writer, st *stats, caseNo int) {
 		}
 		var data []int
 		racing := rng.Intn(4) == 0
-		// (a restore that may be cut short carries a non-empty state, so that its traces can be told apart)
-		for k, m := 0, rng.Intn(5); k < m || ((racing || deposed) && k == 0); k++ {
+		// a leadership transfer is in progress when the restore arrives (flavour below)
+		xfer := !racing && rng.Intn(4) == 0
+		// (a restore that may be cut short or must be refused carries a non-empty state, so that its traces can be told apart)
+		for k, m := 0, rng.Intn(5); k < m || ((racing || deposed || xfer) && k == 0); k++ {
 			data = append(data, 9000+caseNo%100*10+k)
 		}
 		blob := encodeState(data)
@@ -2390,9 +2398,57 @@ func runRestoreCase(rng *rand.Rand, out *bufio.Writer, st *stats, caseNo int) {
 			l.fsm.mu.Unlock()
 			st.Hist["snapshot-being-written-during-restore"]++
 		}
+		xferStarted, xferDone := false, false
+		if xfer {
+			// the transfer's target is cut off, so the transfer cannot finish before the restore is
+			// served: the restore must be refused and leave no trace
+			var tgt *cnode
+			for _, o := range c.nodes[1:] {
+				if o.id != l.id && o.up {
+					tgt = o
+				}
+			}
+			if tgt != nil {
+				c.mu.Lock()
+				c.blocked[[2]int{l.id, tgt.id}] = true
+				c.blocked[[2]int{tgt.id, l.id}] = true
+				c.mu.Unlock()
+				if rng.Intn(2) == 0 {
+					// the target is also an entry behind: the transfer sits in its catch-up phase
+					c.apply(l, "a")
+					synctest.Wait()
+					st.Hist["restore-during-leadership-transfer,target-behind"]++
+				}
+				ls, tid, tad := l, sidOf(tgt.id), tgt.addr
+				xferStarted = true
+				c.wg.Add(1)
+				go func() {
+					defer c.wg.Done()
+					_ = ls.r.LeadershipTransferToServer(tid, tad).Error()
+					c.mu.Lock()
+					xferDone = true
+					c.mu.Unlock()
+				}()
+				synctest.Wait()
+				st.Hist["restore-during-leadership-transfer"]++
+			}
+		}
 		t0 := h.now()
 		h.rec("RI %d %d %d", l.id, l.life, t0)
 		err := l.r.Restore(meta, strings.NewReader(string(blob)), 2*time.Second)
+		if code := errCode(err); code == 5 && xfer {
+			// refused because of the transfer started above: it must have done nothing.  (ErrNotLeader
+			// is not recorded as a refusal: Restore also returns it when the no-op it appends after a
+			// completed restore is turned away, which is the cut-short situation of F16.)
+			h.rec("RR %d %d %d %s", l.id, l.life, code, intsTok(data))
+		}
+		c.mu.Lock()
+		pendingStill := xferStarted && !xferDone
+		c.mu.Unlock()
+		if err == nil && pendingStill {
+			// the restore was served and completed while the transfer call had not yet been answered
+			h.rec("RX %d %d", l.id, l.life)
+		}
 		h.rec("R %d %d %d %d %d %d %d %s", l.id, l.life, t0, h.now(), b2i(err == nil), metaIdx, last, intsTok(data))
 		st.Hist[fmt.Sprintf("restore-ok=%v", err == nil)]++
 		if rng.Intn(2) == 0 {
